@@ -221,6 +221,41 @@ func doPost() (name []byte, out string) {
 	return append([]byte{}, cstr(sum.Filename[:])...), fmt.Sprintf("len=%d total=%d allpost=%s", len(cur), getCached(), allpostText())
 }
 
+// doNLookup: the by-name lookup in front of EditPost / CrossPost (ptt.getFileHeader), with the cached total as
+// it is. Everything after the lookup fails harmlessly on a generated entry (no article file): any error other
+// than a lookup error means the entry was found.
+func doNLookup(how string, name []byte) string {
+	fn := fn28(name)
+	var ne *strconv.NumError
+	switch how {
+	case "edit":
+		_, _, _, err := ptt.EditPost(userRaw, userUID, boardRaw, theBid, fn, []byte("test"), []byte("t"), [][]byte{[]byte("x")}, 0, 0, postIP, nil)
+		posted = true // may leave a temporary file in the board directory
+		switch {
+		case err == nil:
+			return "found"
+		case errors.Is(err, cmsys.ErrRecordNotFound):
+			return "err:notfound"
+		case errors.Is(err, ptttype.ErrInvalidFilename):
+			return "err:invalidfilename"
+		case errors.As(err, &ne):
+			return "err:atoi"
+		case errors.Is(err, io.EOF), errors.Is(err, io.ErrUnexpectedEOF):
+			return "err:eof"
+		}
+		return "found"
+	case "cross":
+		// target board 0 is invalid: a found article stops at the target check, nothing is written
+		_, _, _, err := ptt.CrossPost(userRaw, userUID, boardRaw, theBid, fn, &ptttype.BoardID_t{}, 0, 0, postIP, nil)
+		posted = true
+		if errors.Is(err, ptttype.ErrInvalidFilename) {
+			return "err:lookup"
+		}
+		return "found"
+	}
+	return "bad-op"
+}
+
 func doFindLast(desc bool) string {
 	if len(cur) == 0 {
 		return "err:norecord"
@@ -644,6 +679,19 @@ func do(line string, class string, nontrivial bool) opInfo {
 		info.index = run.Op(line, out, label, true)
 		judgePost(info.index, out)
 		synced = true
+		return info
+	case ws[0] == "nlookup" && len(ws) == 3 && (ws[1] == "edit" || ws[1] == "cross"):
+		name := hx.UnHex(ws[2])
+		before := getCached()
+		out = hx.Call(func() string { return doNLookup(ws[1], name) })
+		cold := "warm"
+		if before == 0 {
+			cold = "cold-first-access"
+		}
+		label = "nlookup:" + ws[1] + ":" + cold + ":" + out
+		info.out = out
+		info.index = run.Op(line, out, label, true)
+		judgeNLookup(info.index, ws[1], name, before == 0, out)
 		return info
 	case ws[0] == "findlast" && len(ws) == 2:
 		desc, ok := parseDir(ws[1])
